@@ -378,59 +378,14 @@ theorem C14_params_from_date (h : Heap) (X : Oid) (us : List PUpd) (h' : Heap) (
   rw [paramObs_eq_hist, paramObs_eq_hist, modifyParams_hist hm hw pn]
   cases hl : paramHist h X pn with
   | none =>
-    simp only [Option.map_none]
-    generalize (us.filter (fun u => u.name = pn)).map PUpd.toUpd = l
-    -- an absent parameter stays absent only if nothing names it; a modifier naming it would have raised
-    have habs : (us.filter (fun u => u.name = pn)) = [] := by
+    -- an absent parameter: a modifier naming it would have raised, so nothing names it
+    have habs : us.filter (fun u => u.name = pn) = [] := by
       rw [List.filter_eq_nil_iff]
       intro u hu hname
       have hname' : u.name = pn := by simpa using hname
-      -- the modifier returned normally, so every named parameter exists
-      have := modifyParams_hist hm hw u.name
-      rcases modifyParams_inv h X us with ⟨e, he⟩ | ⟨s, p, b, p', hs', hp', _, hu', _⟩ | ⟨s, p, p', r, hs', hp', _, hu', he⟩
-      · rw [he] at hm; cases hm
-      · have hex : ∀ (us : List PUpd) (p : ParamTree) p', applyUpds p us = (p', .ok ()) → ∀ u ∈ us,
-            (dictGet u.name p').isSome = true := by
-          intro us
-          induction us with
-          | nil => intro p p' _ u hu; cases hu
-          | cons a r ih =>
-            intro p p' hap u hu
-            unfold applyUpds at hap
-            cases hda : dictGet a.name p with
-            | none => rw [hda] at hap; simp at hap
-            | some l0 =>
-              rw [hda] at hap
-              dsimp only at hap
-              rcases List.mem_cons.mp hu with rfl | hu
-              · rw [applyUpds_ok _ r hap, dictGet_dictSet_self]; rfl
-              · exact ih _ _ hap u hu
-        have h1 := hex us p p' hu' u hu
-        rw [applyUpds_ok p us hu', hname', ← paramHist_eq hs' hp', hl] at h1
-        cases h1
-      · have hr : r = .ok () := by
-          rw [he] at hm; simp only [Prod.mk.injEq] at hm; exact hm.2
-        subst hr
-        have hex : ∀ (us : List PUpd) (p : ParamTree) p', applyUpds p us = (p', .ok ()) → ∀ u ∈ us,
-            (dictGet u.name p').isSome = true := by
-          intro us
-          induction us with
-          | nil => intro p p' _ u hu; cases hu
-          | cons a r ih =>
-            intro p p' hap u hu
-            unfold applyUpds at hap
-            cases hda : dictGet a.name p with
-            | none => rw [hda] at hap; simp at hap
-            | some l0 =>
-              rw [hda] at hap
-              dsimp only at hap
-              rcases List.mem_cons.mp hu with rfl | hu
-              · rw [applyUpds_ok _ r hap, dictGet_dictSet_self]; rfl
-              · exact ih _ _ hap u hu
-        have h1 := hex us p p' hu' u hu
-        rw [applyUpds_ok p us hu', hname', ← paramHist_eq hs' hp', hl] at h1
-        cases h1
-    subst l
+      have := modifyParams_named hm u hu
+      rw [hname', hl] at this
+      cases this
     rw [habs]
     rfl
   | some l =>
@@ -458,7 +413,7 @@ theorem C14_params_one_update (h : Heap) (X : Oid) (u : PUpd) (h' : Heap) (hw : 
   · intro pn hne d
     rw [C14_params_from_date h X [u] h' hw hm hall pn (hs pn) d]
     have : decide (u.name = pn) = false := by simpa using Ne.symm hne
-    simp only [List.filter_cons, this, List.filter_nil, List.map_nil, List.foldl_nil]
+    simp only [List.filter_cons, this, List.filter_nil]
     rfl
 
 example :
